@@ -6,6 +6,8 @@
 #             arithmetic): code under cfg(not(debug_assertions)) and silent wrap-around only exist there
 #             -> "allfeat": the same, with every optional feature of nexrad-model switched on
 #             (chrono, uom, serde: no workspace member enables them, a downstream user may)
+#   C15, C17, C18, C19                 -> "farclock": the same workload with the process's wall clock
+#             moved (LD_PRELOAD shim over clock_gettime/gettimeofday/time; monotonic clocks untouched)
 #   C02-C04, C07-C14                   -> "minfeat": the same, with nexrad-decode built *without*
 #             its default `uom` feature (only possible in a build that does not contain nexrad-data,
 #             whose dependency on nexrad-decode switches the defaults back on)
@@ -25,6 +27,9 @@ case "$TIER:$PROP" in
   thorough:C05|thorough:C06) lanes=(valgrind asan) ;;
   thorough:C01) lanes=(asan) ;;
   thorough:C02|thorough:C04|thorough:C07|thorough:C10) lanes=(miri) ;;
+esac
+case "$PROP" in
+  C15|C17|C18|C19) lanes+=(farclock) ;;
 esac
 case "$PROP" in
   C20) lanes=() ;;
@@ -133,6 +138,44 @@ for lane in "${lanes[@]}"; do
       else STATUS=clean; fi
       echo "observed: lane=$lane property=$PROP inputs=$INPUTS reports=$REPORTS"
       note "$LABEL" "$INPUTS" "$REPORTS" "$(echo "$(date +%s.%N) - $T0" | bc)" "$CMD" "$STATUS"
+      ;;
+    farclock)
+      # the same harness and workload (reduced) with the wall clock moved: past 2038 onto a leap
+      # day, to the edge of the 32-bit epoch, or to the last minute of 2099 (by seed)
+      LOG="$OUT/farclock.log"; mkdir -p "$OUT/farclock-evidence"
+      SO="$ROOT/lanes/clock/nxclock.so"
+      if [ ! -f "$SO" ] || [ "$ROOT/lanes/clock/shim.c" -nt "$SO" ]; then
+        ( clang-14 -O2 -shared -fPIC -w -o "$SO" "$ROOT/lanes/clock/shim.c" -ldl || cc -O2 -shared -fPIC -w -o "$SO" "$ROOT/lanes/clock/shim.c" -ldl ) > "$OUT/farclock-build.log" 2>&1
+      fi
+      if [ ! -f "$SO" ]; then
+        echo "INCONCLUSIVE: property=$PROP wall-clock shim does not build (see $OUT/farclock-build.log)"; RC=2
+        note "far-clock" 0 0 0 "build" inconclusive; continue
+      fi
+      case $(( SEED % 3 )) in
+        0) WHEN="2040-02-29 23:59:20" ;;
+        1) WHEN="2038-01-19 03:13:50" ;;
+        *) WHEN="2099-12-31 23:59:00" ;;
+      esac
+      OFF=$(( $(date -u -d "$WHEN" +%s) - $(date -u +%s) ))
+      BIN="$ROOT/harness/target/release/nxverif"
+      DIV=4; [ "$TIER" = "thorough" ] && DIV=8
+      CMD="LD_PRELOAD=lanes/clock/nxclock.so VERIF_CLOCK_OFFSET_S=$OFF VERIF_CASES_DIV=$DIV $BIN $PROP $TIER   # wall clock starts at $WHEN UTC"
+      LD_PRELOAD="$SO" VERIF_CLOCK_OFFSET_S=$OFF VERIF_CASES_DIV=$DIV VERIF_EVIDENCE_DIR="$OUT/farclock-evidence" VERIF_REPLAY_DIR="$OUT" "$BIN" "$PROP" "$TIER" > "$LOG" 2>&1
+      LRC=$?
+      INPUTS=$(evals_of "$OUT/farclock-evidence/$PROP.json")
+      REPORTS=$(grep -c '^VIOLATION' "$LOG")
+      if [ $LRC -eq 1 ] || [ "$REPORTS" != "0" ]; then
+        grep -E '^(violation-detail|VIOLATION)' "$LOG" | sed "s/^violation-detail: \\[/violation-detail: [wall clock at $WHEN: /" | head -12
+        RC=1; STATUS=violation
+      elif [ $LRC -ne 0 ]; then
+        case $LRC in
+          132|134|136|139) echo "violation-detail: [wall clock at $WHEN: process crashed with exit status $LRC while running the $PROP workload] $(tail -3 "$LOG" | tr '\n' ' ')"
+               echo "VIOLATION property=$PROP replay=$LOG"; RC=1; STATUS=crash ;;
+          *) echo "INCONCLUSIVE: property=$PROP farclock lane exited $LRC (see $LOG)"; grep -E '^(INCONCLUSIVE|HARNESS)' "$LOG" | head -3; RC=2; STATUS=inconclusive ;;
+        esac
+      else STATUS=clean; fi
+      echo "observed: lane=farclock property=$PROP inputs=$INPUTS reports=$REPORTS wall_clock_start=\"$WHEN\""
+      note "far-clock(wall clock started at $WHEN UTC through an LD_PRELOAD shim)" "$INPUTS" "$REPORTS" "$(echo "$(date +%s.%N) - $T0" | bc)" "$CMD" "$STATUS"
       ;;
     miri)
       L=$(echo "$PROP" | tr A-Z a-z)
